@@ -210,7 +210,12 @@
 #include "extensions/qaconf.h"
 
 #ifndef _DOXYGEN_SKIP
+#if defined(QLIBC_VERIF) && defined(QLIBC_VERIF_MAX_LINESIZE)
+/* verification hook: lets a bounded-model-checking harness shrink the line buffer */
+#define MAX_LINESIZE    QLIBC_VERIF_MAX_LINESIZE
+#else
 #define MAX_LINESIZE    (1024*4)
+#endif
 
 /* internal functions */
 static int addoptions(qaconf_t *qaconf, const qaconf_option_t *options);
